@@ -24,9 +24,10 @@ N = 'hickory_net::dnssec::'
 SIG = r'SIG::input\(RecordRef::data\(arg1\)\)'
 
 
-def run(cx):
+def signature_rules(cx, R='C06'):
+    """G1-G3: when is a signature accepted (shared with C07: each chain link rests on them)"""
     # ---------------- G1: RrsigValidity::check
-    f = cx.fn('C06.G1', N + 'RrsigValidity::check')
+    f = cx.fn(R + '.G1', N + 'RrsigValidity::check')
     if f:
         sites = cx.returns(f, r'^RrsigValidity::ValidRrsig$')
         req = {
@@ -43,12 +44,12 @@ def run(cx):
         }
         # class IN for *every* record (loop, !any or all idiom)
         req.pop('all-records-iterated')
-        cx.guard('C06.G1', sites, req, expect=1, fn=f)
-        cx.forall('C06.G1', f, sites, r'arg3\.records', r'^eq:DNSClass\(.*dns_class,DNSClass::IN\)$|^eq:DNSClass\(DNSClass::IN,.*dns_class\)$',
+        cx.guard(R + '.G1', sites, req, expect=1, fn=f)
+        cx.forall(R + '.G1', f, sites, r'arg3\.records', r'^eq:DNSClass\(.*dns_class,DNSClass::IN\)$|^eq:DNSClass\(DNSClass::IN,.*dns_class\)$',
                   'every-record-class-IN')
 
     # ---------------- G2: verify_rrset_with_dnskey
-    f = cx.fn('C06.G2', N + 'verify_rrset_with_dnskey')
+    f = cx.fn(R + '.G2', N + 'verify_rrset_with_dnskey')
     if f:
         sites = cx.returns(f, r'Proof::Secure')
         req = {
@@ -60,37 +61,41 @@ def run(cx):
             'rrsig-class-IN': r'^eq:DNSClass\(DNSClass::IN,RecordRef::dns_class\(arg3\)\)$',
             'signature-verifies': r'^ok\(Verifier::verify_rrsig\(RecordRef::data\(arg1\),arg4\.name,DNSClass::IN,RecordRef::data\(arg3\),Iterator::map\(slice::iter\(arg5\.records\),',
         }
-        cx.guard('C06.G2', sites, req, expect=1, fn=f)
+        cx.guard(R + '.G2', sites, req, expect=1, fn=f)
         for s in sites:
             ok = bool(re.search(r'^Result::Ok\(\(Proof::Secure,Option::Some\(RRSIG::authenticated_ttl\(RecordRef::data\(arg3\),slice::first\(arg5\.records\)@Some\.0,arg6\)\)\)\)$', s.term))
-            cx.check('C06.G2', ok, f.path, s.key(), 'ttl-is-authenticated_ttl', s.term, s.loc)
+            cx.check(R + '.G2', ok, f.path, s.key(), 'ttl-is-authenticated_ttl', s.term, s.loc)
         # every other Ok(..) must not carry Secure
         oks = cx.returns(f, r'^Result::Ok\(')
-        cx.check('C06.G2', len(oks) == 2, f.path, 'ok-returns', 'ok-return-count', '; '.join(s.term for s in oks))
+        cx.check(R + '.G2', len(oks) == 2, f.path, 'ok-returns', 'ok-return-count', '; '.join(s.term for s in oks))
 
     # ---------------- G3: verify_rrsig_with_keys
-    f = cx.fn('C06.G3', N + 'verify_rrsig_with_keys')
+    f = cx.fn(R + '.G3', N + 'verify_rrsig_with_keys')
     if f:
         calls = cx.calls(f, r'dnssec::verify_rrset_with_dnskey$')
-        cx.guard('C06.G3', calls, {'key-proof-secure': r'^is\(RecordRef::proof\(.*@Some\.0\),Secure\)$'}, expect=1, fn=f)
+        cx.guard(R + '.G3', calls, {'key-proof-secure': r'^is\(RecordRef::proof\(.*@Some\.0\),Secure\)$'}, expect=1, fn=f)
         for s in calls:
             # the proof handed down is the key's own proof (not a constant)
             ok = bool(re.search(r'verify_rrset_with_dnskey\((.*@Some\.0),RecordRef::proof\(\1\),arg2,arg3,arg4,arg5\)', s.term))
-            cx.check('C06.G3', ok, f.path, s.key(), 'proof-argument-provenance', s.term[:200], s.loc)
+            cx.check(R + '.G3', ok, f.path, s.key(), 'proof-argument-provenance', s.term[:200], s.loc)
         # wildcard-expanded NSEC/NSEC3 never reach verification
-        cx.guard('C06.G3', calls, {'nsec-not-wildcard-expanded':
+        cx.guard(R + '.G3', calls, {'nsec-not-wildcard-expanded':
                  r'^eq\(SIG::input\(RecordRef::data\(arg2\)\)\.num_labels,LowerName::num_labels\(arg3\.name\)\)$|^!eq:RecordType\(RecordType::NSEC3,arg3\.record_type\)$'}, fn=f)
         ins = cx.returns(f, r'Proof::Insecure')
-        cx.guard('C06.G3', ins, {'all-keys-insecure': r'^Option::unwrap_or\(.*,false\)$',
+        cx.guard(R + '.G3', ins, {'all-keys-insecure': r'^Option::unwrap_or\(.*,false\)$',
                                  'all-keys-seen': r'^!ok\(<FilterMap<I;F> as Iterator>::next\('}, expect=1, fn=f)
         sec = cx.returns(f, r'Proof::(Secure|Bogus|Indeterminate)')
-        cx.check('C06.G3', len(sec) == 0, f.path, 'returns', 'no-constant-proof-origin', str(sec))
-        g = cx.fn('C06.G3', N + 'verify_rrsig_with_keys::{closure#0}')
+        cx.check(R + '.G3', len(sec) == 0, f.path, 'returns', 'no-constant-proof-origin', str(sec))
+        g = cx.fn(R + '.G3', N + 'verify_rrsig_with_keys::{closure#0}')
         if g:
             some = cx.returns(g, r'^Option::Some\(')
-            cx.guard('C06.G3', some, {'collision-cap-or-first':
+            cx.guard(R + '.G3', some, {'collision-cap-or-first':
                      r'^le\(.*,const:dnssec::MAX_KEY_TAG_COLLISIONS\)$|^!ok\(HashMap::get_mut\('}, expect=1, fn=g)
 
+
+
+def run(cx):
+    signature_rules(cx, 'C06')
     # ---------------- W1/S1: TTL writes in the validator, authenticated_ttl shape
     f = cx.fn('C06.W1', N + 'VerifiedRrset::update_rrset')
     ws = [w for w in writers(cx.prog, r'^hickory_proto::rr::record::Record$', r'^ttl$')
